@@ -14,8 +14,8 @@ let unhx s = b (Util.bytes_of_hex s)
 
 let variant =
   match Sys.getenv_opt "C02_VARIANT" with
-  | Some s when String.length s = 4 ->
-    { v_bind = s.[0] <> '-'; v_wd = s.[1] <> '-'; v_key = s.[2] <> '-'; v_obind = s.[3] <> '-' }
+  | Some s when String.length s = 5 ->
+    { v_bind = s.[0] <> '-'; v_wd = s.[1] <> '-'; v_key = s.[2] <> '-'; v_obind = s.[3] <> '-'; v_numlen = s.[4] <> '-' }
   | _ -> repaired
 
 let starts s p = String.length s >= String.length p && String.sub s 0 (String.length p) = p
@@ -25,7 +25,7 @@ let contains s sub =
 
 (* ---- ground truth descriptors ---- *)
 type hd = HX | HY | HH of header * char
-type truth = { th : hd; tb : (bytes * bytes * bytes option) option; tr : bytes option }
+type truth = { th : hd; tb : (bytes * bytes * bytes option) option; tbx : string; tr : bytes option }
 
 let opt_bytes s = if s = "n" then None else Some (unhx s)
 let parse_hdesc (s : string) : header =
@@ -41,13 +41,13 @@ let parse_H s = if s = "x" then HX else if s = "y" then HY else
     match String.split_on_char '/' s with
     | [d; p] -> HH (parse_hdesc d, p.[0])
     | _ -> failwith ("H " ^ s)
-let parse_B s = if s = "x" then None else
+let parse_B s = if s <> "" && s.[0] = 'x' then None else
     match String.split_on_char ',' s with
     | [u; t; w] -> Some (unhx u, unhx t, opt_bytes w)
     | _ -> failwith ("B " ^ s)
 let parse_R s = if s = "x" then None else Some (unhx s)
 let parse_S s = if s = "e" then None else Some (parse_hdesc s)
-let parse_truth h bd r = { th = parse_H h; tb = parse_B bd; tr = parse_R r }
+let parse_truth h bd r = { th = parse_H h; tb = parse_B bd; tbx = bd; tr = parse_R r }
 
 let empty_receipt_hash = unhx "56e81f171bcc55a6ff8345e692c0f86e5b48e01b996cadc001622fb5e363b421"
 
@@ -82,6 +82,9 @@ let show_res = function Ok () -> "ok" | Err e -> Printf.sprintf "err %d" (int_n 
 let classify_accept (key : bytes) (content : bytes) (t : truth) (s : header option) : string =
   match ub key with
   | [] -> "accepted-empty-key"
+  | (0 | 1 | 2) :: kh when List.length kh <> 32 ->
+    Printf.sprintf "accepted-key-wrong-length selector=%d len=%d" (List.hd (ub key)) (List.length kh)
+  | 3 :: kh when List.length kh <> 8 -> Printf.sprintf "accepted-number-key-wrong-length len=%d" (List.length kh)
   | 0 :: kh ->
     (match t.th with
      | HH (h, p) -> if ub h.h_rest <> kh then "accepted-header-hash-mismatch"
@@ -101,7 +104,12 @@ let classify_accept (key : bytes) (content : bytes) (t : truth) (s : header opti
      | Some sh ->
        if ub sh.h_rest <> kh then "accepted-body-against-unbound-header" else
          match t.tb with
-         | None -> "accepted-body-undecodable"
+         | None ->
+           (match t.tbx with
+            | "xu" -> "accepted-body-uncles-undecodable"
+            | "xt" -> "accepted-body-transaction-undecodable"
+            | "xw" -> "accepted-body-withdrawal-undecodable"
+            | _ -> "accepted-body-undecodable")
          | Some (u, tx, w) ->
            if u <> sh.h_uncle then "accepted-body-uncle-mismatch"
            else if tx <> sh.h_tx then "accepted-body-tx-root-mismatch"
